@@ -32,12 +32,19 @@ Definition cigar := list (cop * nat).
      r_ins_left_flank  _detect_alleles, insertion variant (empty normalised REF) located exactly at the first
                        base of an aligned block (read start / after N): false = the code (queues it, the empty
                        REF allele resolves at once), true = repaired (skips it: the junction is not covered)
+     r_ins_span        _detect_alleles at an I operation queues every insertion variant located less than
+                       `length` reference bases downstream (`ref_end = ref_pos + length` although I consumes no
+                       reference): false = the code, true = repaired (only variants at ref_pos itself)
      r_pair_keep_mate  create_read_from_group: false = the code (drops every alignment whose strand differs
                        from the last primary one, i.e. one mate of every FR pair), true = repaired (the strand
                        filter applies to supplementary alignments only) *)
-Record rules := mkRules { r_skip_consumed : bool; r_ins_left_flank : bool; r_pair_keep_mate : bool }.
-Definition current_rules := mkRules false false false.
-Definition repaired_rules := mkRules true true true.
+Record rules := mkRules { r_skip_consumed : bool; r_ins_left_flank : bool; r_pair_keep_mate : bool;
+                          r_ins_span : bool }.
+Definition current_rules := mkRules false false false false.
+Definition repaired_rules := mkRules true true true true.
+(* all rules repaired except number k *)
+Definition all_but (k : nat) : rules :=
+  mkRules (negb (k =? 0)) (negb (k =? 1)) (negb (k =? 2)) (negb (k =? 3)).
 
 Record variant := mkVar { vpos : nat; vref : list Z; valt : list Z }.
 
@@ -129,7 +136,7 @@ Definition cigar_prefix_length (R : rules) (cig : cigar) (want : nat) : option (
 (* ------------------------------------------------------------------------------------------------
    realign, plain edit-distance mode.  Outer option: None = AssertionError.
    Inner option: the detected allele (0 = REF, 1 = ALT) or None = "cannot decide". *)
-Definition ed (s t : list Z) : nat := edit_distance Z.eqb s t (-1)%Z.
+Definition edist (s t : list Z) : nat := edit_distance Z.eqb s t (-1)%Z.
 Definition LT : Z := 60%Z.   (* '<' : symbolic ALT *)
 
 Definition is_symbolic (v : variant) : bool :=
@@ -160,7 +167,7 @@ Definition realign (R : rules) (reference : list Z) (overhang : nat) (v : varian
            (i consumed qpos : nat) : option (option nat) :=
   if is_symbolic v then Some None else
   match windows R reference overhang v cig query i consumed qpos with
-  | Some (q, pref, palt) => Some (decide (ed q pref) (ed q palt))
+  | Some (q, pref, palt) => Some (decide (edist q pref) (edist q palt))
   | None => None
   end.
 
@@ -424,7 +431,8 @@ Fixpoint detect_loop (R : rules) (cig : cigar) (query quals : list Z) (variants 
       | OpS => detect_loop R cig' query quals variants vp queue flank rp (qp + len)
       | OpH | OpP => detect_loop R cig' query quals variants vp queue flank rp qp
       | _ =>
-          let (newq, vp') := enqueue (r_ins_left_flank R && negb flank) op variants vp rp qp (rp + len) in
+          let (newq, vp') := enqueue (r_ins_left_flank R && negb flank) op variants vp rp qp
+                                      (rp + match op with OpI => if r_ins_span R then 1 else len | _ => len end) in
           let queue1 := map (handle op query quals variants qp len) (queue ++ newq) in
           let rp' := match op with OpI => rp | _ => rp + len end in
           let qp' := match op with OpD => qp | _ => qp + len end in
@@ -673,16 +681,59 @@ Definition l1_missing_pair (c : case_t) : bool :=
   let '(_, _, _, _, (_, _, must_pair), _) := c in with_out c (none_missing must_pair).
 Definition l1_no_crash (c : case_t) : bool :=
   match c_out c with Some _ => true | None => false end.
-Definition l2_model (c : case_t) : bool :=
+Definition l2_model_with (R : rules) (c : case_t) : bool :=
   let '(reference, variants, alns, _, _, out) := c in
-  match out, read_set_default current_rules reference variants alns with
+  match out, read_set_default R reference variants alns with
   | Some o, Some m => out_eqb o m
   | None, None => true
   | _, _ => false
   end.
-(* the same input under the repaired rules satisfies every L1 clause (evaluated on the model's output) *)
-Definition repaired_ok (c : case_t) : bool :=
+Definition l2_model := l2_model_with current_rules.
+Definition clauses_ok (c : case_t) : bool :=
+  l1_no_crash c && l1_no_wrong c && l1_no_wrong_skip c && l1_overlap c && l1_missing c && l1_missing_skip c
+  && l1_missing_pair c.
+Definition with_model (R : rules) (c : case_t) : case_t :=
   let '(reference, variants, alns, tr, mu, _) := c in
-  let c' : case_t := (reference, variants, alns, tr, mu, read_set_default repaired_rules reference variants alns) in
-  l1_no_crash c' && l1_no_wrong c' && l1_no_wrong_skip c' && l1_overlap c' && l1_missing c' && l1_missing_skip c'
-  && l1_missing_pair c'.
+  (reference, variants, alns, tr, mu, read_set_default R reference variants alns).
+(* the same input under the repaired rules satisfies every L1 clause (evaluated on the model's output) *)
+Definition repaired_ok (c : case_t) : bool := clauses_ok (with_model repaired_rules c).
+(* attribution of a failing case to the defective rules: rule k is needed iff repairing all others is not enough *)
+Definition not_needed (k : nat) (c : case_t) : bool := clauses_ok (with_model (all_but k) c).
+
+(* ------------------------------------------------------------------------------------------------
+   vocabulary of the theorems: a CIGAR as the list of its unit operations *)
+Definition expand (c : cigar) : list cop := flat_map (fun ol => repeat (fst ol) (snd ol)) c.
+Definition ref_unit (o : cop) : nat := match o with OpM | OpD | OpN | OpEQ | OpX => 1 | _ => 0 end.
+Definition query_unit (o : cop) : nat := match o with OpM | OpI | OpS | OpEQ | OpX => 1 | _ => 0 end.
+Definition ref_units (u : list cop) : nat := fold_right (fun o acc => ref_unit o + acc) 0 u.
+Definition query_units (u : list cop) : nat := fold_right (fun o acc => query_unit o + acc) 0 u.
+Definition is_clip (o : cop) : bool := match o with OpS | OpH => true | _ => false end.
+(* operations that may occur inside a variant's footprint *)
+Definition is_aligned (o : cop) : bool := match o with OpM | OpEQ | OpX | OpI | OpD => true | _ => false end.
+Definition positive_lengths (c : cigar) : Prop := Forall (fun ol : cop * nat => 0 < snd ol) c.
+(* the split point (i, consumed) of _iterate_cigar as an index into the unit operations *)
+Definition unit_index (c : cigar) (i consumed : nat) : nat := length (expand (firstn i c)) + consumed.
+(* how a re-alignment window may end before `overhang` matching bases are reached: only clips up to the end of
+   the read, or (under the repaired skip rule only) clips and then a reference skip *)
+Definition window_end (R : rules) (rest : list cop) : Prop :=
+  forallb is_clip rest = true \/
+  (r_skip_consumed R = true /\ exists rest1 rest2, rest = rest1 ++ OpN :: rest2 /\ forallb is_clip rest1 = true).
+
+(* positions weakly increasing along an indexed variant list *)
+Fixpoint sorted_pos (vs : list ivar) : Prop :=
+  match vs with
+  | [] => True
+  | x :: r => Forall (fun y : ivar => vpos (snd x) <= vpos (snd y)) r /\ sorted_pos r
+  end.
+
+(* what _iterate_cigar promises about one yield (index, i, consumed, query_pos) for a variant at position p:
+   operation i is a match / deletion containing p at offset `consumed`, or an insertion located at p;
+   query_pos is the number of query bases before the base aligned to p (before the insertion / deletion) *)
+Definition yield_ok (start : nat) (cig : cigar) (p : nat) (y : cyield) : Prop :=
+  let '(_, i, consumed, qpos) := y in
+  exists op len, nth_error cig i = Some (op, len) /\
+    let rb := start + ref_units (expand (firstn i cig)) in
+    let qb := query_units (expand (firstn i cig)) in
+    (is_match op = true /\ consumed < len /\ p = rb + consumed /\ qpos = qb + consumed) \/
+    (op = OpD /\ consumed < len /\ p = rb + consumed /\ qpos = qb) \/
+    (op = OpI /\ consumed = 0 /\ p = rb /\ qpos = qb).
